@@ -140,11 +140,19 @@ struct VisitCtx {
         seen.reserve(lim + 1);
     }
 };
+// a visitor may itself traverse or search the list (read-only): the outer traversal must be unaffected, the inner one complete
+struct NestedWalk { struct cstl_dlist *l; VisitCtx *outer; size_t at; bool done; size_t inner_seen; int inner_rv; int dir; } g_nested;
+int count_cb(void *, void *priv) { (*(size_t *)priv)++; return 0; }
 int visit_cb(void *obj, void *priv)
 {
     VisitCtx *c = (VisitCtx *)priv;
     if (c->seen.size() >= c->limit) { c->overflow = true; return 77; }
     c->seen.push_back((Elem *)obj);
+    if (g_nested.l && g_nested.outer == c && !g_nested.done && c->seen.size() == g_nested.at) {
+        g_nested.done = true;
+        g_nested.inner_seen = 0;        // library call from within the visitor, in the other direction
+        g_nested.inner_rv = cstl_dlist_foreach(g_nested.l, count_cb, &g_nested.inner_seen, (cstl_dlist_foreach_dir_t)g_nested.dir);
+    }
     if (c->stop_at && c->seen.size() == c->stop_at) return c->stop_val;
     return 0;
 }
@@ -213,8 +221,21 @@ void audit(Inst &in, int li, Obs *obs, const char *pfx)
     LIB(bk = cstl_dlist_back(l));
     VisitCtx vf_(0, m.size() + 1, 0, 0), vr(1, m.size() + 1, 0, 0);
     int rvf, rvr;
+    bool nest = m.size() >= 2 && m.size() <= 2000 && (m.size() & 1) == 0;       // every other audit of a list with >= 2 elements
+    g_nested = NestedWalk{nest ? l : nullptr, &vf_, 1 + m.size() / 2, false, 0, 0, CSTL_DLIST_FOREACH_DIR_REV};
     LIB(rvf = cstl_dlist_foreach(l, visit_cb, &vf_, CSTL_DLIST_FOREACH_DIR_FWD));
+    bool done1 = g_nested.done; size_t seen1 = g_nested.inner_seen; int rv1 = g_nested.inner_rv;
+    g_nested = NestedWalk{nest ? l : nullptr, &vr, 1 + m.size() / 3, false, 0, 0, CSTL_DLIST_FOREACH_DIR_FWD};
     LIB(rvr = cstl_dlist_foreach(l, visit_cb, &vr, CSTL_DLIST_FOREACH_DIR_REV));
+    bool done2 = g_nested.done; size_t seen2 = g_nested.inner_seen; int rv2 = g_nested.inner_rv;
+    g_nested.l = nullptr;
+    if (nest) {
+        if (in.primary) CNT("class.walk.nested");
+        char ncl[64];
+        snprintf(ncl, sizeof ncl, "%s.seq", pfx);
+        CHECK(done1 && done2 && rv1 == 0 && rv2 == 0 && seen1 == m.size() && seen2 == m.size(), ncl,
+              "%s L%d a traversal started from inside a visit saw %zu / %zu of %zu elements", in.tag, li, seen1, seen2, m.size());
+    }
     if (obs) {
         obs->push_back((long)sz);
         obs->push_back(fr ? ((Elem *)fr == (vf_.seen.empty() ? nullptr : vf_.seen.front()) ? 1 : 2) : 0);
